@@ -89,20 +89,39 @@ type c08Case struct {
 	Source   string     `json:"source,omitempty"`   // struct: query | bind-get | form | multipart | json | xml | header | param | param+query
 	LenMode  string     `json:"len_mode,omitempty"` // struct, body sources: "" Content-Length | unknown (-1) | chunked (-1 + TransferEncoding) | server (real connection, chunked upload)
 	Fields   []c08Field `json:"fields,omitempty"`
-	Fields2  []c08Field `json:"fields2,omitempty"` // param+query: the query string (Fields = path params), bound by c.Bind
-	Prepop   bool       `json:"prepop,omitempty"`  // struct: destination pre-populated with non-zero sentinels
-	Default  bool       `json:"default,omitempty"` // vb: the binder is used as its constructor returns it, FailFast is never called before the first op (documented default: enabled)
+	Fields2  []c08Field `json:"fields2,omitempty"`    // param+query: the query string (Fields = path params), bound by c.Bind
+	Prepop   bool       `json:"prepop,omitempty"`     // struct: destination pre-populated with non-zero sentinels
+	ErrFunc  string     `json:"errfunc,omitempty"`    // vb: the binder's ErrorFunc: "" default (NewBindingError) | nil (returns nil) | plain (returns errors.New)
+	Serial   string     `json:"serializer,omitempty"` // struct, json source: "" default JSONSerializer | raw (application serializer returning the decoder's plain errors)
+	Default  bool       `json:"default,omitempty"`    // vb: the binder is used as its constructor returns it, FailFast is never called before the first op (documented default: enabled)
 }
 
 // ---------- destination types of the harness ----------
 
 type c08Unm struct{ V string }
 
+// c08UnmErr: every unmarshaler of the harness rejects text starting with `!`.  The error VALUE it
+// rejects with varies with the text — a plain error, or an *echo.HTTPError of another class
+// (`!500…` ErrInternalServerError, `!502…`, `!415…` ErrUnsupportedMediaType, `!400…`, `!404…`):
+// client text that the destination rejects is a 400 whatever the destination's error looks like.
 func c08UnmErr(s string) error {
-	if strings.HasPrefix(s, "!") {
-		return errors.New("rejected by the unmarshaler")
+	switch {
+	case !strings.HasPrefix(s, "!"):
+		return nil
+	case strings.HasPrefix(s, "!500"):
+		return echo.ErrInternalServerError
+	case strings.HasPrefix(s, "!502"):
+		return echo.NewHTTPError(http.StatusBadGateway, "upstream said no")
+	case strings.HasPrefix(s, "!415"):
+		return echo.ErrUnsupportedMediaType
+	case strings.HasPrefix(s, "!400"):
+		return echo.NewHTTPError(http.StatusBadRequest, "bad")
+	case strings.HasPrefix(s, "!404"):
+		return echo.ErrNotFound
+	case strings.HasPrefix(s, "!wrap"):
+		return fmt.Errorf("wrapped: %w", echo.ErrInternalServerError)
 	}
-	return nil
+	return errors.New("rejected by the unmarshaler")
 }
 func (u *c08Unm) UnmarshalParam(s string) error {
 	if err := c08UnmErr(s); err != nil {
@@ -854,15 +873,28 @@ func c08RunVB(c *c08Case) (res Result) {
 	}
 	created := 0
 	badErr := ""
+	var recorded []error // every error handed to the binder since the last reset, in order (nil included)
 	orig := b.ErrorFunc
 	b.ErrorFunc = func(sourceParam string, values []string, message interface{}, internalError error) error {
 		created++
-		err := orig(sourceParam, values, message, internalError)
-		var be *echo.BindingError
-		if !errors.As(err, &be) || be.HTTPError == nil || be.Code != http.StatusBadRequest {
-			badErr = fmt.Sprintf("error is not a 400 BindingError: %v", err)
+		var err error
+		switch c.ErrFunc {
+		case "nil": // the application reports the problem itself and hands nothing to the binder
+			err = nil
+		case "plain":
+			err = errors.New("application error for " + sourceParam)
+		default:
+			err = orig(sourceParam, values, message, internalError)
+			var be *echo.BindingError
+			if !errors.As(err, &be) || be.HTTPError == nil || be.Code != http.StatusBadRequest {
+				badErr = fmt.Sprintf("error is not a 400 BindingError: %v", err)
+			}
 		}
+		recorded = append(recorded, err)
 		return err
+	}
+	if c.ErrFunc != "" {
+		tags = append(tags, "errorfunc:"+c.ErrFunc)
 	}
 	startFF := c.FailFast
 	if c.Default {
@@ -872,10 +904,11 @@ func c08RunVB(c *c08Case) (res Result) {
 	}
 
 	tbl := &c08Table{}
-	ops := []string{"0", wBool(c.FailFast), wInt(len(c.Ops))}
+	efNil := wBool(c.ErrFunc == "nil")
+	ops := []string{"0", wBool(c.FailFast), efNil, wInt(len(c.Ops))}
 	if c.Default {
 		ctor := map[string]string{"": "0", "query": "0", "path": "1", "form": "2", "multipart": "2"}[c.Binder]
-		ops = []string{"3", ctor, wInt(len(c.Ops))}
+		ops = []string{"3", ctor, efNil, wInt(len(c.Ops))}
 		tags = append(tags, "ctor-default:"+c.Binder)
 	}
 	var obs []string
@@ -923,6 +956,7 @@ func c08RunVB(c *c08Case) (res Result) {
 				got = append([]string(nil), values...)
 				errs := c08CustomApply(cu.Mode, values, dest)
 				returned += len(errs)
+				recorded = append(recorded, errs...)
 				return errs
 			}
 			before := created
@@ -997,17 +1031,26 @@ func c08RunVB(c *c08Case) (res Result) {
 			err := b.BindError()
 			ops = append(ops, "2")
 			obs = append(obs, wBool(err != nil))
-			if (err != nil) != (pending > 0) {
+			// BindError() hands out the FIRST error recorded since the last reset (nil if the
+			// application's ErrorFunc returned nil for it), or nil when nothing was recorded
+			var first error
+			if len(recorded) > 0 {
+				first = recorded[0]
+			}
+			if err != first {
+				fail(i, "BindError() = %v, the first error recorded since the last reset is %v (%d recorded)", err, first, pending)
+			}
+			if c.ErrFunc == "" && (err != nil) != (pending > 0) {
 				fail(i, "BindError() = %v although %d errors were recorded since the last reset", err, pending)
 			}
 			if err != nil {
 				var be *echo.BindingError
-				if !errors.As(err, &be) || be.Code != http.StatusBadRequest {
+				if c.ErrFunc == "" && (!errors.As(err, &be) || be.Code != http.StatusBadRequest) {
 					fail(i, "BindError() is not a 400-class BindingError: %v", err)
 				}
 				render(i, err)
 			}
-			pending = 0
+			pending, recorded = 0, nil
 			tags = append(tags, "op:binderror")
 		case "binderrors":
 			errs := b.BindErrors()
@@ -1016,13 +1059,19 @@ func c08RunVB(c *c08Case) (res Result) {
 			if len(errs) != pending {
 				fail(i, "BindErrors() returned %d errors, %d were recorded since the last reset", len(errs), pending)
 			}
-			for _, e := range errs {
+			for k, e := range errs {
+				if k < len(recorded) && e != recorded[k] {
+					fail(i, "BindErrors()[%d] = %v, the error recorded at that position is %v", k, e, recorded[k])
+				}
 				var be *echo.BindingError
-				if !errors.As(e, &be) || be.Code != http.StatusBadRequest {
+				if e != nil && (c.ErrFunc == "" || errors.As(e, &be)) && (!errors.As(e, &be) || be.Code != http.StatusBadRequest) {
 					fail(i, "BindErrors() holds an error that is not a 400-class BindingError: %v", e)
 				}
-				render(i, e)
+				if e != nil {
+					render(i, e)
+				}
 			}
+			recorded = nil
 			pending = 0
 			tags = append(tags, "op:binderrors")
 		case "call":
@@ -1502,6 +1551,10 @@ func c08RunStruct(c *c08Case) (res Result) {
 	default: // query, bind-get
 		req = httptest.NewRequest(http.MethodGet, "/?"+uv.Encode(), nil)
 	}
+	if c.Serial == "raw" {
+		e.JSONSerializer = verifRawJSON{}
+		tags = append(tags, "serializer:raw")
+	}
 	ctx := e.NewContext(req, httptest.NewRecorder())
 	if c.Source == "param" || twoPass {
 		var names, values []string
@@ -1533,7 +1586,7 @@ func c08RunStruct(c *c08Case) (res Result) {
 	var err error
 	panicked := ""
 	served := false
-	if body != nil && c.LenMode == "server" {
+	if body != nil && c.LenMode == "server" && c.Serial == "" {
 		// the same bytes over a real connection, uploaded without a declared length
 		served = verifServe(http.MethodPost, "/", body, http.Header{echo.HeaderContentType: {bodyCT}}, func(sc echo.Context) {
 			defer func() {
@@ -1587,9 +1640,19 @@ func c08RunStruct(c *c08Case) (res Result) {
 			fail("%s body %q: decoding the same bytes gives error=%v, Bind returned %v", c.Source, body, refErr, err)
 		}
 		if err != nil {
+			// 400 — except that BindBody hands an *echo.HTTPError coming out of the JSONSerializer
+			// through unchanged (documented: the serializer may answer with its own HTTP error).
+			// encoding/json returns the error of a destination's UnmarshalJSON / UnmarshalText as
+			// it is, so a destination rejecting text with an *HTTPError surfaces with that code
+			// here (observation O10 of DELIVERY-r7; XML and every non-decoded source wrap into 400).
+			wantCode := http.StatusBadRequest
+			if rhe, ok := refErr.(*echo.HTTPError); ok && c.Source == "json" {
+				wantCode = rhe.Code
+				tags = append(tags, "json-httperror-passthrough")
+			}
 			var he *echo.HTTPError
-			if !errors.As(err, &he) || he.Code != http.StatusBadRequest {
-				fail("binding error is not a 400 HTTPError: %v", err)
+			if !errors.As(err, &he) || he.Code != wantCode {
+				fail("binding error is not a %d HTTPError: %v", wantCode, err)
 			}
 			tags = append(tags, "struct-400")
 		} else {
